@@ -98,4 +98,77 @@ theorem readOctetStream_write (os : Bytes) (minimum : Nat) (h1 : minimum ≤ os.
   simp only [RR.bind_ok, h3, if_false]
   exact readOctetStream_go os r
 
+/-! ### the readers are total -/
+
+theorem readU8_np (s : Bytes) : ∀ p, readU8 s ≠ .panic p := by
+  intro p; unfold readU8 rdExact; split <;> simp
+theorem readU16be_np (s : Bytes) : ∀ p, readU16be s ≠ .panic p := by
+  intro p; unfold readU16be rdExact; split <;> simp
+theorem readU32be_np (s : Bytes) : ∀ p, readU32be s ≠ .panic p := by
+  intro p; unfold readU32be rdExact; split <;> simp
+theorem readInteger16_np (m : Nat) (s : Bytes) : ∀ p, readInteger16 m s ≠ .panic p := by
+  intro p; unfold readInteger16
+  cases h : readU16be s with
+  | ok v r => simp only [RR.bind_ok]; split <;> simp
+  | err r => simp
+  | panic q => exact absurd h (readU16be_np s q)
+theorem readLength_np (s : Bytes) : ∀ p, readLength s ≠ .panic p := by
+  intro p; unfold readLength
+  cases h : readU8 s with
+  | ok v r =>
+    simp only [RR.bind_ok]; split
+    · cases h2 : readU8 r with
+      | ok v2 r2 => simp
+      | err r2 => simp
+      | panic q => exact absurd h2 (readU8_np r q)
+    · simp
+  | err r => simp
+  | panic q => exact absurd h (readU8_np s q)
+theorem readInteger_np (s : Bytes) : ∀ p, readInteger s ≠ .panic p := by
+  intro p; unfold readInteger
+  cases h : readLength s with
+  | ok v r =>
+    simp only [RR.bind_ok]
+    split; · exact readU8_np r p
+    split; · exact readU16be_np r p
+    split; · exact readU32be_np r p
+    simp
+  | err r => simp
+  | panic q => exact absurd h (readLength_np s q)
+theorem bind_np {α β} (r : RR α) (k : α → Bytes → RR β) (h1 : ∀ p, r ≠ .panic p)
+    (h2 : ∀ a rest, r = .ok a rest → ∀ p, k a rest ≠ .panic p) : ∀ p, r.bind k ≠ .panic p := by
+  intro p
+  cases hr : r with
+  | ok a rest => simpa using h2 a rest hr p
+  | err e => simp
+  | panic q => exact absurd hr (h1 q)
+theorem readOid_np (oid : List Nat) (s : Bytes) : ∀ p, readOid oid s ≠ .panic p := by
+  unfold readOid
+  split
+  · intro p; simp
+  · apply bind_np _ _ (readLength_np s); intro len r _
+    split
+    · intro p; simp
+    · apply bind_np _ _ (readU8_np r); intro _ r _
+      apply bind_np _ _ (readU8_np r); intro _ r _
+      apply bind_np _ _ (readU8_np r); intro _ r _
+      apply bind_np _ _ (readU8_np r); intro _ r _
+      apply bind_np _ _ (readU8_np r); intro _ r _
+      intro p; simp
+theorem readOctetStream_go_np (es r : Bytes) : ∀ p, readOctetStream.go es r ≠ .panic p := by
+  induction es generalizing r with
+  | nil => intro p; simp [readOctetStream.go]
+  | cons e es ih =>
+    simp only [readOctetStream.go]
+    apply bind_np _ _ (readU8_np r); intro c r' _
+    split
+    · exact ih r'
+    · intro p; simp
+theorem readOctetStream_np (e : Bytes) (m : Nat) (s : Bytes) : ∀ p, readOctetStream e m s ≠ .panic p := by
+  unfold readOctetStream
+  apply bind_np _ _ (readLength_np s); intro len r _
+  split
+  · intro p; simp
+  · exact readOctetStream_go_np e r
+
 end Rdp.Per
